@@ -11,28 +11,28 @@ CHECKS = {
 	'C07': dict(
 		category='exploration',
 		technique='exhaustive enumeration (all k-mers k<=8, all byte strings len<=2) + Hypothesis-generated long k-mers/indices against a positional-arithmetic oracle',
-		text='Complete enumeration of the small sub-domains named in the property (every k-mer up to k=8, every 0..2-byte string, boundary k-mers for every k up to 32, over-long strings) plus generated 9..32-mers, near-miss bytes, 64-bit indices, Bio.Seq / NumPy-integer arguments and strided byte buffers, each compared with Python-int positional arithmetic and a 256-entry complement table. Exhaustive where the property says exhaustive; sampled (tens of thousands to a million cases) for k>8.',
+		text='Complete enumeration of the small sub-domains named in the property (every k-mer up to k=8, every 0..2-byte string, boundary k-mers for every k up to 32, over-long strings) plus generated 9..32-mers, near-miss bytes, 64-bit indices, Bio.Seq / NumPy-integer arguments and strided byte buffers, and short call sequences executed as the first native calls of a fresh interpreter (lazily initialised state), each compared with Python-int positional arithmetic and a 256-entry complement table. Exhaustive where the property says exhaustive; sampled (tens of thousands to a million cases) for k>8.',
 		note='Trusts the harness oracle (vlib/refmodel/kmer.py). Native code is tested as the generated C translation compiled by gcc (Cython is not available in the sandbox to re-translate an edited .pyx).',
 		design='DESIGN.md §4 C07',
 	),
 	'C01': dict(
 		category='exploration',
 		technique='exhaustive short strings x small specs + Hypothesis fragment-built sequences vs a definitional both-strand k-mer finder (reference model)',
-		text='Every string up to length 6 (quick) / 8 (thorough) over two 4-letter alphabets for 18 (k,prefix) specs is compared with a definitional scan of both strands, which settles off-by-one errors in either search bound and the reverse slice for short inputs completely; generated multi-sequence inputs (arbitrary bytes, overlapping/self-overlapping/palindromic prefixes up to 12 nt, hits flush with either end, k up to 32) are run through all four input types and all accumulators and compared value-for-value, dtype and order; find_kmers matches are compared with the definitional occurrences; 3 cases in 5 are preceded by calls that fail part-way, which must leave no trace.',
+		text='Every string up to length 6 (quick) / 8 (thorough) over two 4-letter alphabets for 18 (k,prefix) specs is compared with a definitional scan of both strands, which settles off-by-one errors in either search bound and the reverse slice for short inputs completely; generated multi-sequence inputs (arbitrary bytes, overlapping/self-overlapping/palindromic prefixes up to 12 nt, hits flush with either end, k up to 32) are run through all four input types and all accumulators and compared value-for-value, dtype and order; find_kmers matches are compared with the definitional occurrences; str inputs with embedded whitespace must be rejected or treated as invalid characters, never joined; 3 cases in 5 are preceded by calls that fail part-way, which must leave no trace.',
 		note='Trusts vlib/refmodel/kmer.py (literal reverse-complement strand, Python-int base-4 code). Dense accumulator only for k<=12 (4^k bytes). Native encoders tested as the existing C translation.',
 		design='DESIGN.md §4 C01',
 	),
 	'C02': dict(
 		category='exploration',
 		technique='exhaustive subset pairs x 36 dtype pairs + Hypothesis-generated boundary-straddling sets vs exact integer ratio rounded once to binary32 (bit compare)',
-		text='All ordered pairs of subsets of a 6/8-element universe in all 36 dtype combinations, plus generated pairs (patterns: equal, disjoint, nested, interleaved, same last, prefix, empty; universes straddling 2^15/2^16/2^31/2^32/2^63 and ending at the top of the wider type; universes whose values alias each other modulo 2^16 / 2^32; sets up to 3000 elements; strided views; both argument orders) are compared bit-for-bit with an integer-arithmetic round-half-even oracle; jaccard() must be one minus that distance.',
+		text='All ordered pairs of subsets of a 6/8-element universe in all 36 dtype combinations, plus generated pairs (patterns: equal, disjoint, nested, interleaved, same last, prefix, empty; universes straddling 2^15/2^16/2^31/2^32/2^63 and ending at the top of the wider type; universes whose values alias each other modulo 2^16 / 2^32; sets up to 3000 elements and size-skewed pairs (one set >= 4096, the other <= 1/64 of it, values above 2^53); strided views; both argument orders) are compared bit-for-bit with an integer-arithmetic round-half-even oracle; jaccard() must be one minus that distance.',
 		note='Trusts vlib/refmodel/jaccard.py. Sets >= 2^24 elements are not built. Signed arrays hold non-negative values only (documented precondition).',
 		design='DESIGN.md §4 C02',
 	),
 	'C15': dict(
 		category='exploration',
 		technique='exhaustive triples of subsets (5/7-element universe) + Hypothesis-generated perturbed set triples checked against the metric axioms (invariant oracle)',
-		text='Range, identity of indiscernibles, d=1 iff disjoint, bit-exact symmetry, triangle inequality (slack 2^-22), width independence and strict decrease on adding a fresh k-mer are asserted for every ordered triple of subsets of a small universe in three width assignments, and for generated triples of related sets up to 2000 elements, including sets whose values alias modulo 2^16 / 2^32 under mixed widths.',
+		text='Range, identity of indiscernibles, d=1 iff disjoint, bit-exact symmetry, triangle inequality (slack 2^-22), width independence and strict decrease on adding a fresh k-mer are asserted for every ordered triple of subsets of a small universe in three width assignments, and for generated triples of related sets up to 2000 elements, including sets whose values alias modulo 2^16 / 2^32 under mixed widths, and large near-equal sets (up to 2^20 elements) for the strict-decrease law.',
 		note='Axioms are checked on the values returned by gambit.metric.jaccarddist; exactness of each value is C02. Strict decrease asserted for |AuB| < 2^20, where the two exact ratios differ by a relative 1/(|AuB|+1) > 2^-20, i.e. by more than a binary32 spacing, so one correct rounding cannot merge them.',
 		design='DESIGN.md §4 C15',
 	),
@@ -53,15 +53,15 @@ CHECKS = {
 	'C12': dict(
 		category='exploration',
 		technique='Hypothesis-generated signature collections: dump/load round trip vs a list model; generated foreign byte strings and foreign HDF5 files must be refused',
-		text='Round trips over k 1..32 (all four index widths, values up to 4^k-1), empty/all-empty signatures, both write paths, string/int64/uint64 IDs, Unicode metadata with nested JSON extra and every compression filter, stored integer types wider than / signed variants of the k-mer spec type, payloads above 64 Ki values, overwritten paths and pathlib paths are compared field by field and index expression by index expression with a Python list model; generated non-signature files (empty, text, FASTA, random, gzip, short prefixes, HDF5 files of other kinds incl. signature-shaped files lacking only the marker) must raise SignaturesFileError, and corrupt HDF5-magic files some exception.',
+		text='Round trips over k 1..32 (all four index widths, values up to 4^k-1), empty/all-empty signatures, both write paths, string/int64/uint64 IDs, Unicode metadata with nested JSON extra and every compression filter, stored integer types wider than / signed variants of the k-mer spec type, payloads above 64 Ki values, overwritten paths and pathlib paths are compared field by field and index expression by index expression with a Python list model; generated non-signature files (empty, text, FASTA, random, gzip, short prefixes, HDF5 files of other kinds incl. signature-shaped files lacking only the marker, files carrying an HDF5 superblock at a non-zero offset such as a tar archive of a signature file) must raise SignaturesFileError, and corrupt HDF5-magic files some exception.',
 		note='Strings contain no NUL / lone surrogates (not storable in HDF5 vlen strings). h5py/HDF5 are part of the system under test only through gambit\'s use of them.',
 		design='DESIGN.md §4 C12',
 	),
 	'C19': dict(
 		category='fault_enumeration',
-		technique='process-level fault injection: forked writer SIGKILLed before each h5py call boundary (all points enumerated per generated payload); oracle: load raises or loads exactly the payload',
-		text='For each generated payload (both write paths, small and multi-megabyte, with/without compression) every storage-call boundary of the write is used as a crash point (one forked, SIGKILLed writer per point, plus the after-close control), the output path being absent, junk or an older complete signature file; for a sample of payloads every write-type system call of a fresh writer process is used as a crash point through strace fault injection (crashes inside H5Fclose); the file left behind must be refused or load as exactly the payload.',
-		note='Library-level crash points are h5py call boundaries (attribute set, dataset create, dataset write, flush, close); system-call-level points need ptrace (the check degrades to library level if strace is unavailable). SIGKILL models process death, not power loss.',
+		technique='process-level fault injection: forked writer ended (SIGKILL / SIGTERM / SIGINT) before each h5py call boundary (all points enumerated per generated payload) + strace system-call fault injection; oracle: load raises or loads exactly the payload',
+		text='For each generated payload (both write paths, small and multi-megabyte, with/without compression) every storage-call boundary of the write is used as a crash point (one forked writer per point, plus the after-close control), the writer being the library call or the `signatures create` command and being ended by SIGKILL (nothing runs), SIGTERM or SIGINT (the interpreter unwinds, context managers close the file), the output path being absent, junk or an older complete signature file; for a sample of payloads every write-type system call of a fresh writer process is used as a crash point through strace fault injection (crashes inside H5Fclose); the file left behind must be refused or load as exactly the payload.',
+		note='Library-level crash points are h5py call boundaries (attribute set, dataset create, dataset write, flush, close); system-call-level points need ptrace (the check degrades to library level if strace is unavailable). Signals model process death, not power loss. One genuine defect found and repaired (D9: an interrupted write that unwinds left a loadable zero-filled file).',
 		design='DESIGN.md §4 C19',
 	),
 	'C06': dict(
@@ -74,14 +74,14 @@ CHECKS = {
 	'C13': dict(
 		category='exploration',
 		technique='exhaustive enumeration of task completion orders (n<=5/6) through a controlled executor + Hypothesis-generated real-pool runs and injected unreadable files; oracle: per-file single result in input order',
-		text='All n! completion orders for n <= 5 (quick) / 6 (thorough) are imposed through the public executor= argument by an executor that completes task perm[i] only after perm[i-1] was collected; plus the all-done-before-collection schedule, real thread/process pools with worker counts 1..16 and size skew, sequential mode, the `signatures create -c N` command line, a reused caller-owned thread pool, earlier failing calls in the same process, and a fault (missing file, directory, truncated gzip, invalid UTF-8, junk) at a drawn position. Result must be one signature per file in input order equal to the single-file result; a supplied executor is left open; an unreadable file fails the whole call.',
+		text='All n! completion orders for n <= 5 (quick) / 6 (thorough) are imposed through the public executor= argument by an executor that completes task perm[i] only after perm[i-1] was collected; plus the all-done-before-collection schedule, real thread/process pools with worker counts 1..16 and size skew, sequential mode, the `signatures create -c N` command line, a reused caller-owned thread pool, earlier failing calls in the same process, and a fault (missing file, directory, truncated gzip, invalid UTF-8, junk) at a drawn position. Result must be one signature per file in input order equal to the single-file result and to the definitional signature of the file content; a supplied executor is left open; an unreadable file fails the whole call.',
 		note='Completion order is owned only for the ordered/instant executors; with real pools the OS schedules (sampled with skewed file sizes).',
 		design='DESIGN.md §4 C13',
 	),
 	'C03': dict(
 		category='exploration',
 		technique='Hypothesis-generated forests x genome assignments x binary32 distance vectors (thresholds exactly at / one ulp off occurring distances) vs a dict model of the classification rules; metamorphic monotonicity',
-		text='classify() in default mode, GenomeMatch and reportable_taxon are compared with a dict model (closest at minimum distance, first lineage taxon with threshold >= d, primary == closest iff predicted, next = nearest threshold-bearing taxon below the prediction / topmost if none, first reportable ancestor) over generated forests with threshold-less, non-monotone and unreportable taxa, genomes on internal taxa and distances exactly equal to thresholds; increasing distance may only keep or coarsen a prediction. End-to-end worlds (query() on a materialised database) are covered by the world-level cases.',
+		text='classify() in default mode, GenomeMatch and reportable_taxon are compared with a dict model (closest at minimum distance, first lineage taxon with threshold >= d, primary == closest iff predicted, next = nearest threshold-bearing taxon below the prediction / topmost if none, first reportable ancestor) over generated forests with threshold-less, non-monotone and unreportable taxa, genomes on internal taxa and distances exactly equal to thresholds or within 1e-8 of each other without being equal; increasing distance may only keep or coarsen a prediction. End-to-end worlds (query() on a materialised database) are covered by the world-level cases.',
 		note='Comparison d <= threshold is modelled exactly in binary64 (NumPy 1.26 semantics). One genuine defect found and repaired (next_taxon with a threshold-less genome taxon).',
 		design='DESIGN.md §4 C03',
 	),
@@ -102,14 +102,14 @@ CHECKS = {
 	'C09': dict(
 		category='exploration',
 		technique='Hypothesis-generated tie-heavy distance rows and tie-heavy databases vs sort-by-(distance, index) oracle; subprocess differential across NumPy CPU-dispatch settings and core counts',
-		text='closest_genomes is compared with the (distance, reference order) prefix for generated rows with heavy ties (lengths up to 1000, all report_closest shapes), for generated databases with identical/equidistant genomes, and the JSON/CSV outputs of real `gambit query` subprocesses are compared across NPY_DISABLE_CPU_FEATURES settings and -c values (byte-identical lists, CSV and JSON name the same closest genome).',
+		text='closest_genomes is compared with the (distance, reference order) prefix for generated rows with heavy ties (lengths up to 1000, all report_closest shapes), for generated databases with identical/equidistant genomes (one QueryParams object reused across databases of different size must come back unchanged), and the JSON/CSV outputs of real `gambit query` subprocesses are compared across NPY_DISABLE_CPU_FEATURES settings and -c values (byte-identical lists, CSV and JSON name the same closest genome).',
 		note='CPU dispatch is varied on this sandbox CPU only. One genuine defect found and repaired (unstable argsort).',
 		design='DESIGN.md §4 C09',
 	),
 	'C14': dict(
 		category='exploration',
 		technique='Hypothesis-generated pairs/triples of k-mer specs x the full grid of two-source command lines (in-process CLI); oracle: error/exit/no-output on mismatch, else distances under the shared spec (R-KMER -> R-JAC)',
-		text='For generated database / query-file / reference-file / explicit-option parameter combinations (k up to 20, prefixes incl. reverse-complement pairs and lower-case spelling, database via -d or environment) every command that brings two signature sources together (query -s; dist --qs x {--rs,--use-db,-r,--rl,--square}; dist {-q,--ql} x {--rs,--use-db}; -k without -p; signatures create --db-params with -k/-p) must fail with a reported error, non-zero status and untouched/absent output when any two specs differ, and otherwise produce exactly the distances obtained under the parameters of the pre-computed side.',
+		text='For generated database / query-file / reference-file / explicit-option parameter combinations (k up to 20, prefixes incl. reverse-complement pairs and lower-case spelling, the default 11/ATGAC given explicitly, database via -d or environment) every command that brings two signature sources together (query -s; dist --qs x {--rs,--use-db,-r,--rl,--square}; dist {-q,--ql} x {--rs,--use-db}; -k without -p; signatures create --db-params with -k/-p) must fail with a reported error, non-zero status and untouched/absent output when any two specs differ, and otherwise produce exactly the distances obtained under the parameters of the pre-computed side.',
 		note='Commands run in-process through click.testing.CliRunner on the working tree. One genuine defect found and repaired (query -s skipped the check).',
 		design='DESIGN.md §4 C14',
 	),
@@ -123,7 +123,7 @@ CHECKS = {
 	'C08': dict(
 		category='exploration',
 		technique='Hypothesis-generated worlds x batch plans (order/multiset x channel x gzip x file names x -c x progress x format, plus API chunk sizes); metamorphic row equality across plans + predicted row from R-KMER -> R-JAC -> R-TAX',
-		text='For each generated database and query set, 2-3 batch plans are executed (in-process CLI, csv/json/archive, positional / list-file / signature-file input, any order with duplicates, gzip, nested directories, nasty names, -c 1..16, progress on/off, single/multi-member gzip, database via -d or GAMBIT_DB_PATH; API with chunk sizes) and every output row must be present once per input in input order, carry the expected label and equal the model row of that genome - which makes it identical in every context; rows of the same genome are also compared directly across plans.',
+		text='For each generated database and query set, 2-3 batch plans are executed (in-process CLI, csv/json/archive, positional / list-file / signature-file input, any order with duplicates, gzip, nested directories, nasty names, symbolic links named differently from their targets, -c 1..16, progress on/off, single/multi-member gzip, database via -d or GAMBIT_DB_PATH; API with chunk sizes) and every output row must be present once per input in input order, carry the expected label and equal the model row of that genome - which makes it identical in every context; rows of the same genome are also compared directly across plans.',
 		note='Process-pool scheduling under -c is sampled (C13 owns completion order at the API). Labels exclude newline/NUL//.',
 		design='DESIGN.md §4 C08',
 	),
@@ -144,7 +144,7 @@ CHECKS = {
 	'C18': dict(
 		category='exploration',
 		technique='model-based generation of command/library-call histories (Hypothesis lists of steps interpreted against a fresh database copy); invariant after every step: sha256 of both files, nothing flushed, commit raises',
-		text='Histories of 5..25 steps mixing every read-side command (query in all channels/formats, dist --use-db, signatures info/create --db-params, tree), failing commands, library queries with handles left open, ORM edits on each default session (attribute change, add, delete) followed by flush / autoflushing query / commit / rollback, and double opens of the signature file are run against a fresh copy of a generated database whose genome file is put into a drawn valid SQLite configuration (default, WAL, PERSIST, other page size, user_version), interleaved with writable sessions on unrelated files; after every step the sha256 and size of the .gdb and .gs must equal their initial values, the edited session\'s own connection must still show the original rows and commit() must have raised.',
+		text='Histories of 5..25 steps mixing every read-side command (query in all channels/formats, dist --use-db, signatures info/create --db-params, tree), failing commands, library queries with handles left open, ORM edits on each default session (attribute change, add, delete) followed by flush / autoflushing query / commit / rollback, and double opens of the signature file are run against a fresh copy of a generated database whose genome file is put into a drawn valid SQLite configuration (default, WAL, PERSIST, other page size, user_version, an older table layout, extra tables/indexes/views), interleaved with writable sessions on unrelated files; after every step the sha256 and size of the .gdb and .gs must equal their initial values, the edited session\'s own connection must still show the original rows and commit() must have raised.',
 		note='Only the bytes of the two database files are compared. In-process CLI via CliRunner.',
 		design='DESIGN.md §4 C18',
 	),
@@ -194,7 +194,7 @@ def main():
 			kind_free_text='Hypothesis 6.168 generators + complete enumeration of small finite sub-domains, sharded over 16 worker processes; explicit reference-model / round-trip / metamorphic oracles per property; shrunk failures become replay files',
 		)],
 		checks=checks,
-		notes='Every check: exit 0 = held on everything explored; exit 1 + "VIOLATION property=<id> replay=<path>"; exit 2 = harness error (never a VIOLATION). Seeds: VERIF_SEED. Known findings: /verif/KNOWN_FINDINGS.txt. Sensitivity: /verif/mutants (about 130 mutants incl. native and multi-site ones) and /verif/seeded (40 independently written breaking changes; DESIGN.md sections 9-10 record which check catches which).',
+		notes='Every check: exit 0 = held on everything explored; exit 1 + "VIOLATION property=<id> replay=<path>"; exit 2 = harness error (never a VIOLATION). Seeds: VERIF_SEED. Known findings: /verif/KNOWN_FINDINGS.txt. Sensitivity: /verif/mutants (about 135 mutants incl. native and multi-site ones) and /verif/seeded (60 independently written breaking changes in three rounds; DESIGN.md sections 9-10 record which check catches which).',
 		not_applicable=na,
 	)
 	with open(os.path.join(VERIF, 'MANIFEST.json'), 'w') as f:
